@@ -651,6 +651,8 @@ class DecimalConverter(Converter):
         try: val = Decimal(val)
         except InvalidOperation as exc:
             throw(TypeError, 'Invalid value for attribute %s: %r' % (converter.attr, val))
+        exp = converter.exp
+        if exp is not None and val.is_finite(): val = val.quantize(exp)  # the scale the database will store
         if converter.min_val is not None and val < converter.min_val:
             throw(ValueError, 'Value %r of attr %s is less than the minimum allowed value %r'
                              % (val, converter.attr, converter.min_val))
